@@ -84,6 +84,10 @@ def gen_cfg(rng, with_error=False, max_nt=5, allow_conflicts=True):
     nts = ["S"] + ["N%d" % i for i in range(1, nnt)]
     nterm = rng.randint(1, 5)
     terms = rng.sample(TERM_POOL, nterm)
+    if rng.random() < 0.2:
+        # spellings that coincide when symbols are concatenated ( "<" "=" / "<=" ;  a b / ab ): keys built by joining names collide
+        terms = rng.choice([['"<"', '"="', '"<="'], ["a", "b", "ab"], ['"+"', '"++"', "a"]]) + rng.sample(TERM_POOL, rng.randint(0, 2))
+        terms = list(dict.fromkeys(terms))
     prods = []
     for ni, nt in enumerate(nts):
         nalt = rng.choice([1, 2, 2, 3, 3, 4])
